@@ -124,6 +124,9 @@ def checkBlock (raw sosaOn conv exact : Bool) (m : POMDP) (b : Vec) (B : Block) 
     v := dIf v (!(allLt S fun s => eqv exact (mpu s) (pun s))) (fun _ => s!"{c "updateBeliefPartialUnnormalized"} o={o} model={toList S mpu} impl={ob.pun}")
     v := fIf v (!(allLt S fun s => eqv exact (mm.Ob s 0 o * part s) (pun s))) (fun _ => s!"{c "updateBeliefPartialUnnormalized"} not_correct_step o={o} impl={ob.pun}")
     v := fIf v (!(allLt S fun s => eqv exact (un s) (pun s))) (fun _ => s!"{c "updateBeliefPartialUnnormalized"} two_stage_mismatch o={o} one={ob.un} two={ob.pun}")
+    -- loop branch: same operations in the same order, hence bit-identical whatever the rounding (theorem `two_stage_fl_eq`)
+    v := dIf v (rep == "generic" && ob.un != ob.pun) (fun _ => s!"{c "updateBeliefPartialUnnormalized"} two-stage result not bit-identical to one-stage o={o} one={ob.un} two={ob.pun}")
+    v := dIf v (rep == "generic" && po > 0 && !(ob.no == ob.pno)) (fun _ => s!"{c "updateBeliefPartialNormalized"} two-stage result not bit-identical to one-stage o={o} one={ob.no.toList} two={ob.pno.toList}")
     -- SOSA
     let ms := mSosa rep mm 0 o
     if sosaOn then
